@@ -81,6 +81,10 @@ known("C03", r"^asm_layout\|\[?pcr\]?/\w+/bwd/[^|]*\|C03:target\|[^:]+:bwd:wrong
       "backward label,PCR at distance -129..-131: the size estimate forgets the statement's own bytes, the 8-bit form is chosen and "
       "cannot hold the displacement",
       {"asm": ["T NOP", " RMB 125", " LDA T,PCR"]}, also=("C01", "C04"))
+known("C03", r"^asm_passes\|fn/determine_pcr_relative_sizes/bwd\|probe\|probe:post:fits8-backward:probe:\w+:bwd:rmb:n=125:pcr8$",
+      "the same backward boundary defect at its call site (contract clause post:fits8-backward of determine_pcr_relative_sizes): "
+      "min_size counts the bytes between target and statement + 2, the displacement is counted from the end of the 3-byte statement, "
+      "so 126 bytes between give -129 in the 8-bit form", {"asm": ["T NOP", " RMB 125", " LDA T,PCR"]}, also=("C13", "C02"))
 known("C03", r"^asm_layout\|pcr[+-]c/\w+/(fwd|bwd)/[^|]*\|(C03:target|C03:accepted|C02:\w+|C13:[\w-]+)\|",
       "label+-constant,PCR: the constant is applied to the wrong quantity / the operand is mis-sized",
       {"asm": [" LDA T+7,PCR", " RMB 121", "T NOP"]}, also=("C01", "C04", "C02", "C13"))
